@@ -1,7 +1,7 @@
 (* C02 — Generated C accessors address the same bytes as the Python view. Statements only. *)
 From Coq Require Import ZArith List Bool Lia.
 Import ListNotations.
-From XO Require Import Slots Strides BufOps Types Format LayoutProofs CExpr CExprProofs CSpec CSpecProofs Address.
+From XO Require Import Slots Strides BufOps Types Format LayoutProofs RoundTrip CExpr CExprProofs CSpec CSpecProofs Address.
 Open Scope Z_scope.
 
 (* the normaliser preserves the value of an address expression for every index vector and every
@@ -28,30 +28,44 @@ Proof. exact cfun_ok_sound. Qed.
 (* END TO END: an accessor accepted by the validator, run with in-range indices on ANY buffer that holds
    the documented image of ANY value of its type at ANY offset, computes the address at which the
    documented image of the addressed element sits, and that lies inside the object.  (nav: the element
-   a path denotes under the index arguments; crun: C semantics of the emitted body and return
+   a path denotes under the index arguments, reference steps going to the referent; targets_ok: the reference
+   slots hold slot-relative offsets to where the referents' images sit -- trivially true without references; crun: C semantics of the emitted body and return
    expression; loads read the buffer relative to the object start.)  With C05's tie (the bytes of
    every object ARE the documented image) this is "C and Python address the same bytes". *)
 Theorem C02_accessor_addresses_element : forall f v img m o ix lt lv ic',
   cfun_ok f = None -> (cf_action f = AGetp \/ ((cf_action f = AGet \/ cf_action f = ASet) /\ exists k, lt = TScalar k)) ->
   nav ix (cf_ty f) v (cf_path f) 0 lt lv ic' ->
-  enc (cf_ty f) v = Some img -> sits img m o -> len img < 2^62 ->
+  enc (cf_ty f) v = Some img -> sits img m o -> len img < 2^62 -> targets_ok (cf_ty f) v m o ->
   let addr := o + crun (ld m o) ix (cf_body f) (cf_final f) in
-  exists e, enc lt lv = Some e /\ sits e m addr /\ o <= addr /\ addr + len e <= o + len img.
+  exists e, enc lt lv = Some e /\ sits e m addr /\ (~ In PRef (cf_path f) -> o <= addr /\ addr + len e <= o + len img).
 Proof. exact accessor_addresses_element. Qed.
 Theorem C02_getter_reads_the_element : forall f v img m o ix k bs ic',
   cfun_ok f = None -> cf_action f = AGet ->
   nav ix (cf_ty f) v (cf_path f) 0 (TScalar k) (VNum bs) ic' ->
-  enc (cf_ty f) v = Some img -> sits img m o -> len img < 2^62 ->
+  enc (cf_ty f) v = Some img -> sits img m o -> len img < 2^62 -> targets_ok (cf_ty f) v m o ->
   let addr := o + crun (ld m o) ix (cf_body f) (cf_final f) in
-  rd m addr (ssize k) = bs /\ o <= addr /\ addr + ssize k <= o + len img.
+  rd m addr (ssize k) = bs /\ (~ In PRef (cf_path f) -> o <= addr /\ addr + ssize k <= o + len img).
 Proof. exact getter_reads_the_element. Qed.
 (* lengths: an accepted *_len accessor returns the number of items of the addressed array *)
 Theorem C02_len_accessor : forall f v img m o ix item shape order sh items ic',
   cfun_ok f = None -> cf_action f = ALen ->
   nav ix (cf_ty f) v (cf_path f) 0 (TArray item shape order) (VArr sh items) ic' ->
-  enc (cf_ty f) v = Some img -> sits img m o -> len img < 2^62 ->
+  enc (cf_ty f) v = Some img -> sits img m o -> len img < 2^62 -> targets_ok (cf_ty f) v m o ->
   crun (ld m o) ix (cf_body f) (cf_final f) = prod sh /\ prod sh = len items.
 Proof. exact len_accessor_returns_item_count. Qed.
+(* union references: member index and member address *)
+Theorem C02_typeid_accessor : forall f v img m o ix ms lv ic',
+  cfun_ok f = None -> cf_action f = ATypeid ->
+  nav ix (cf_ty f) v (cf_path f) 0 (TUnion ms) lv ic' ->
+  enc (cf_ty f) v = Some img -> sits img m o -> len img < 2^62 -> targets_ok (cf_ty f) v m o ->
+  crun (ld m o) ix (cf_body f) (cf_final f) = match lv with VMember k _ => Z.of_nat k | _ => -1 end.
+Proof. exact typeid_accessor_returns_member_index. Qed.
+Theorem C02_member_accessor : forall f v img m o ix ms k w ic',
+  cfun_ok f = None -> cf_action f = AMember ->
+  nav ix (cf_ty f) v (cf_path f) 0 (TUnion ms) (VMember k w) ic' ->
+  enc (cf_ty f) v = Some img -> sits img m o -> len img < 2^62 -> targets_ok (cf_ty f) v m o ->
+  exists mt timg, nth_error ms k = Some mt /\ enc mt w = Some timg /\ sits timg m (o + crun (ld m o) ix (cf_body f) (cf_final f)).
+Proof. exact member_accessor_addresses_member. Qed.
 Theorem C02_strides : forall shape order isz idx,
   let n := length order in
   Permutation.Permutation order (seq 0 n) -> length shape = n -> length idx = n ->
@@ -79,3 +93,5 @@ Print Assumptions C02_strides.
 Print Assumptions C02_accessor_addresses_element.
 Print Assumptions C02_getter_reads_the_element.
 Print Assumptions C02_len_accessor.
+Print Assumptions C02_typeid_accessor.
+Print Assumptions C02_member_accessor.
